@@ -374,8 +374,7 @@ def find_const(src, name, scope=None):
         b = m.end() - 1
         rng = (b, match_close(src.text, b, '{', '}'))
     seg = src.text[rng[0]:rng[1]]
-    ms = list(re.finditer(r'\bconst(?:expr)?\s+[\w:]+\s+' + re.escape(name) + r'\s*=\s*([^;]+);', seg))
-    ms += list(re.finditer(r'\bconst\s+static\s+[\w:]+\s+' + re.escape(name) + r'\s*=\s*([^;]+);', seg))
+    ms = list(re.finditer(r'\b(?:const|constexpr)\b[^;=(){}]*?[\s&*]' + re.escape(name) + r'\s*=\s*([^;]+);', seg))
     if len(ms) == 1:
         return ' '.join(ms[0].group(1).split())
     ms = list(re.finditer(r'(?<=[{,])\s*' + re.escape(name) + r'\s*=\s*([^,}]+)[,}]', seg))
@@ -409,11 +408,14 @@ def find_fields(src, cls):
     fields = []
     for stmt in flat.split(';'):
         s = ' '.join(stmt.split())
-        if not s or '(' in s or s.startswith(('static ', 'const static', 'friend', 'using', 'typedef', 'template', 'enum', 'class', 'struct')) or '{}' in s:
+        if not s or '(' in s or s.startswith(('static ', 'const static', 'constexpr ', 'friend', 'using', 'typedef', 'template', 'enum', 'class', 'struct')) or '{}' in s:
             # in-class default member initialisers with {} are not expected in pulled classes
-            if '{}' in s and '(' not in s and not s.startswith(('enum', 'class', 'struct', 'static', 'union')):
+            if '{}' in s and '=' in s and '(' not in s and not s.startswith(('enum', 'class', 'struct', 'static', 'union', 'friend', 'using', 'typedef', 'template')):
+                s = s.replace('{}', '__BRACE_INIT__')   # member with brace initialiser: keep as a data member
+            elif '{}' in s and '(' not in s and not s.startswith(('enum', 'class', 'struct', 'static', 'union')):
                 raise ExtractError('unsupported member declaration in %s: %s' % (cls, s))
-            continue
+            else:
+                continue
         s = re.sub(r'\bmutable\b', '', s).strip()
         s = re.sub(r'alignas\s*\([^)]*\)', '', s).strip()
         init = None
@@ -538,6 +540,8 @@ class Translator:
         """Canonical C++ class/scalar name used for method lookup."""
         t = cxx.replace('const', ' ').replace('&', ' ').replace('*', ' ').replace('struct', ' ')
         t = ' '.join(t.split())
+        if t not in self.classes and '::' in t and t.split('::')[-1] in self.classes:
+            t = t.split('::')[-1]
         return t
 
     def parse_params(self, ptext):
@@ -563,7 +567,7 @@ class Translator:
 
     # ----- pulling functions -----
     def pull(self, relpath, qual, cname=None, nparams=None, index=0, tsubst=None, suffix='',
-             rules=(), template=None, extra_locals=None, self_cls=None, as_static=None):
+             rules=(), template=None, extra_locals=None, self_cls=None, as_static=None, type_alias=None):
         src = Source.get(relpath)
         ft = find_function(src, qual, nparams=nparams, index=index, template=template)
         parts = qual.split('::')
@@ -588,6 +592,12 @@ class Translator:
             is_static = True
         params = self.parse_params(ft.params)
         ret = ft.ret
+        if self_cls and type_alias:
+            for p_ in params:
+                if p_.ctype in type_alias:
+                    p_.ctype = type_alias[p_.ctype]
+            for a_, b_ in type_alias.items():
+                ret = re.sub(r'\b%s\b' % re.escape(a_), b_, ret)
         ret_ref = ret.endswith('&')
         ret_c = re.sub(r'\bconst\b', '', ret.rstrip('&').strip()).strip()
         if is_ctor:
@@ -644,7 +654,7 @@ class Translator:
         env = {}
         self.tsubst = dict(f.tsubst)
         self.aliases = {}
-        self.using_ns = []
+        self.using_ns = list(getattr(f, 'using_ns', []))
         cls = self.classes.get(f.cls) if f.cls else None
         sig_params = []
         if cls and not f.is_static:
@@ -686,6 +696,11 @@ class Translator:
             text, n = re.subn(pat, rep, text)
             self._fired(f.cname, pat, n, cnt)
         ctext = self.tr_text(text)
+        if f.ret_ref:
+            # reference-returning function: returns a pointer in C
+            ctext, nret = re.subn(r'\breturn\s+([^;]+);', r'return &(\1);', ctext)
+            if nret == 0:
+                raise ExtractError('%s: reference-returning function without return' % f.cname)
         f.proto = '%s %s(%s)' % (ret_c, f.cname, ', '.join(sig_params) if sig_params else 'void')
         f.body_c = pre + ctext
         f.sha = hashlib.sha256(ft.body.encode()).hexdigest()
@@ -1150,6 +1165,14 @@ class Translator:
                         ty = None
                         continue
                     raise ExtractError('%s: unsupported atomic operation %s' % (self.cur.cname, mname))
+                if tyname.startswith('std::vector<') or tyname.startswith('vector<'):
+                    if mname == 'size' and k3 < n and toks[k3][1] == '(':
+                        e = self._match(toks, k3)
+                        text = '%s.size' % text
+                        ty = ('lv', 'int')
+                        j = e + 1
+                        continue
+                    raise ExtractError('%s: std::vector member %s is outside the translatable subset' % (self.cur.cname, mname))
                 if tyname not in self.classes:
                     raise ExtractError('%s: member access .%s on non-class type %s (%s)' % (self.cur.cname, mname, tyname, text))
                 ci = self.classes[tyname]
@@ -1206,9 +1229,9 @@ class Translator:
                     text, ty = self._emit_call(fdict, '', text, None, toks[k + 1:e], tyname + '::operator[]')
                     j = e + 1
                     continue
-                if tyname and tyname.startswith('vector<'):
+                if tyname and (tyname.startswith('vector<') or tyname.startswith('std::vector<')):
                     text = '%s.data[%s]' % (text, idx)
-                    ty = ('lv', tyname[7:-1])
+                    ty = ('lv', tyname[tyname.index('<') + 1:-1].strip())
                     j = e + 1
                     continue
                 text = '%s[%s]' % (text, idx)
